@@ -617,12 +617,12 @@ type dInfo struct {
 
 type world struct {
 	repos    map[string]bool
-	bundles  map[string]map[string]bool      // repo -> committed bundle IDs
-	leftover map[string]map[string]bool      // repo -> IDs of interrupted uploads (not bundles)
-	labels   map[string]map[string]string    // repo -> label name -> bundle ID
-	diamonds map[string]map[string]dInfo     // repo -> diamond ID
-	splits   map[string]map[string]dInfo     // repo/diamond -> split ID
-	counters map[string]int                  // how objects were made (api / forged)
+	bundles  map[string]map[string]bool   // repo -> committed bundle IDs
+	leftover map[string]map[string]bool   // repo -> IDs of interrupted uploads (not bundles)
+	labels   map[string]map[string]string // repo -> label name -> bundle ID
+	diamonds map[string]map[string]dInfo  // repo -> diamond ID
+	splits   map[string]map[string]dInfo  // repo/diamond -> split ID
+	counters map[string]int               // how objects were made (api / forged)
 }
 
 func newWorld() *world {
